@@ -29,12 +29,12 @@ Definition spec_expect (st : sstate) (o : obs) : N :=
   | OContains ip _ => code_of_bool (spec_contains_st st ip)
   end.
 
-(** what the model returns in state [s] *)
-Definition model_expect (s : state) (o : obs) : N :=
+(** what the model returns in state [s], and the state it moves to *)
+Definition model_step (s : state) (o : obs) : state * N :=
   match o with
-  | OAdd c _ => code_of_result (snd (add s c))
-  | ORemove c _ => code_of_result (snd (remove s c))
-  | OContains ip _ => code_of_bool (contains s ip)
+  | OAdd c _ => let '(s', r) := add s c in (s', code_of_result r)
+  | ORemove c _ => let '(s', r) := remove s c in (s', code_of_result r)
+  | OContains ip _ => (s, code_of_bool (contains s ip))
   end.
 
 Record acc := mkAcc {
@@ -49,8 +49,8 @@ Definition first_fail (cur : option N) (ok : bool) (pos : N) : option N :=
 Definition step_acc (a : acc) (o : obs) : acc :=
   let r := obs_res o in
   let se := spec_expect (a_spec a) o in
-  let me := model_expect (a_model a) o in
-  mkAcc (match obs_op o with Some p => fst (apply (a_model a) p) | None => a_model a end)
+  let '(s', me) := model_step (a_model a) o in
+  mkAcc s'
         (match obs_op o with Some p => spec_step (a_spec a) p | None => a_spec a end)
         (a_pos a + 1)
         (first_fail (a_specfail a) (se =? r) (a_pos a))
